@@ -17,8 +17,9 @@ KNOWN_FILE = os.path.join(vlib.VERIF, "KNOWN_FINDINGS.d", "C11.json")
 STREAMS = {
     "acase": ("upgrade.Level.Allows vs Upgrade.allows", ["allows_eq_spec", "allows_compose"]),
     "gcase": ("upgrade.Config.Get vs Upgrade.config_get", ["config_get_correct"]),
+    "pcase": ("upgrade.NewConfigFromStrings + Config.Get vs Upgrade.config_parse / sconfig_get", ["config_parse_correct"]),
     "scase": ("suggest.suggestMavenVersion vs Suggest.suggest_maven_version",
-              ["suggest_within_level", "suggest_not_downgrade", "suggest_no_panic"]),
+              ["suggest_within_level", "suggest_not_downgrade", "suggest_no_panic", "suggest_respelling_not_upward_refuted"]),
     "qcase": ("MavenSuggester.Suggest / guidedremediation.Update vs Suggest.suggest_all", ["suggest_none_untouched"]),
     "rcase": ("relaxer.NpmRelaxer.Relax vs Relax.relax_npm",
               ["relax_none_untouched", "relax_strictly_up", "relax_level_checked", "relax_range_within_level"]),
